@@ -76,6 +76,12 @@ Cat ==
   ("selm_choice_space_list_used_before" :> M({"M"}, "choices", FALSE, "ident")) @@      \* (a select_one reads the list first)
   ("choices_missing_list_name_header" :> M({}, "form", FALSE, "ident")) @@
   ("survey_missing_type_header"       :> M({}, "form", FALSE, "ident")) @@
+  ("header_twice_case_canon_first" :> M({}, "form", FALSE, "ident")) @@      \* one column under two spellings, the canon spelling to the left
+  ("header_twice_case_alias_first" :> M({}, "form", FALSE, "ident")) @@      \* one column under two spellings, the alias spelling to the left
+  ("header_twice_choices_canon_first" :> M({}, "form", FALSE, "ident")) @@      \* one column under two spellings, the canon spelling to the left
+  ("header_twice_choices_alias_first" :> M({}, "form", FALSE, "ident")) @@      \* one column under two spellings, the alias spelling to the left
+  ("header_twice_logic_canon_first" :> M({}, "form", FALSE, "ident")) @@      \* one column under two spellings, the canon spelling to the left
+  ("header_twice_logic_alias_first" :> M({}, "form", FALSE, "ident")) @@      \* one column under two spellings, the alias spelling to the left
   ("instance_id_clash"       :> M({}, "form", FALSE, "ident")) @@
   ("entity_bad_dataset"      :> M({}, "form", FALSE, "ident")) @@
   ("entity_unknown_column"   :> M({}, "form", FALSE, "ident")) @@
